@@ -13,6 +13,7 @@ package main
 import (
 	"fmt"
 	"io"
+	"log/slog"
 	"math/rand"
 	"net/http"
 	"net/http/httptest"
@@ -96,6 +97,11 @@ func round(r *vh.Run, i int, ov *overlap) {
 	c.API.Referrer.Limit = 700
 	if i%3 == 0 {
 		c.Storage.GC.GracePeriod = time.Hour // collections run but nothing expires: long-lived sessions and repositories
+	}
+	if i%2 == 1 {
+		// a logger that formats everything it is given (as `serve -v debug` does): what is handed to the logger is read
+		c.Log = slog.New(slog.NewTextHandler(io.Discard, &slog.HandlerOptions{Level: slog.LevelDebug - 8}))
+		r.Count("rounds_with_a_formatting_logger", 1)
 	}
 	srv := vh.New(c)
 	h := tracked{h: srv, ov: ov}
@@ -263,6 +269,51 @@ func sessionPairs(r *vh.Run, i int) {
 	}
 }
 
+// freshRepoTrial: requests that are the FIRST to touch a repository that exists on disk (the directory store then
+// builds and publishes its repository object) while the background jobs that walk the published repositories - the
+// collection ticker and the expiry timer of the repository cache - fire as often as they can.  With a grace period
+// of nanoseconds every request is a first one again.
+func freshRepoTrial(r *vh.Run, i int) {
+	root := r.TempDir("c13f")
+	defer vh.RemoveAll(root)
+	s0 := vh.New(vh.Conf(vh.Dir, root, vh.Neutral))
+	const nrepo = 6
+	for k := 0; k < nrepo; k++ {
+		b := []byte(fmt.Sprintf("fresh %d %d", i, k))
+		vh.Do(s0, vh.Req{Method: "POST", URL: fmt.Sprintf("/v2/f%d/blobs/uploads/?digest=%s", k, vh.DigestOf("sha256", b)), Body: b})
+	}
+	_ = s0.Close()
+	c := vh.Conf([]vh.StoreKind{vh.Dir, vh.Dir, vh.MemDir}[i%3], root, vh.Policy{Grace: 1})
+	c.Storage.GC.GracePeriod = []time.Duration{time.Nanosecond, 30 * time.Microsecond, 400 * time.Microsecond, time.Hour}[(i/3)%4]
+	c.Storage.GC.Frequency = []time.Duration{200 * time.Microsecond, time.Millisecond, 5 * time.Millisecond}[(i/12)%3]
+	for n := 0; n < 6; n++ { // several servers: the first tick of a ticker sees every repository as modified
+		srv := vh.New(c)
+		var wg sync.WaitGroup
+		for cl := 0; cl < 3; cl++ {
+			wg.Add(1)
+			go func(cl int) {
+				defer wg.Done()
+				for q := 0; q < 24; q++ {
+					k := (q + cl*2) % nrepo
+					switch q % 3 {
+					case 0:
+						vh.Do(srv, vh.Req{Method: "GET", URL: fmt.Sprintf("/v2/f%d/tags/list", k)})
+					case 1:
+						b := []byte(fmt.Sprintf("fresh %d %d", i, k))
+						vh.Do(srv, vh.Req{Method: "HEAD", URL: fmt.Sprintf("/v2/f%d/blobs/%s", k, vh.DigestOf("sha256", b))})
+					default:
+						vh.Do(srv, vh.Req{Method: "GET", URL: fmt.Sprintf("/v2/f%d/referrers/%s", k, vh.DigestOf("sha256", []byte("none")))})
+					}
+					r.Count("first_touch_requests", 1)
+				}
+			}(cl)
+		}
+		wg.Wait()
+		_ = srv.Close()
+	}
+	r.Count("fresh_repository_trials", 1)
+}
+
 func main() {
 	r := vh.Start()
 	if strings.HasPrefix(r.Variant(), "vsync") {
@@ -271,13 +322,18 @@ func main() {
 	ov := &overlap{active: map[string]int{}, pairs: map[string]int{}}
 	n := r.N(10, 80)
 	ns := r.N(18, 240)
-	vh.Parallel(n+ns, 3, func(i int) {
-		if i < n {
+	nf := r.N(12, 144)
+	vh.Parallel(n+ns+nf, 3, func(i int) {
+		switch {
+		case i < n:
 			round(r, i, ov)
-		} else {
+		case i < n+ns:
 			sessionPairs(r, i-n)
+		default:
+			freshRepoTrial(r, i-n-ns)
 		}
 	})
+	r.Require("fresh_repository_trials", int64(nf))
 	r.Require("same_session_pairs", int64(ns*6))
 	ov.mu.Lock()
 	var ps []string
@@ -294,5 +350,5 @@ func main() {
 	r.Require("rounds", int64(n))
 	r.Require("requests", int64(n*400))
 	r.RequireDistinct("overlapping_handler_pairs", 40)
-	r.Finish("rounds of 8-13 stress clients (chunked uploads with expiry and eviction underneath, image and artifact pushes, referrers reads, deletes, listings) plus 4 readers with many client addresses (rate limiter), paged and filtered referrers reads against a 15 ms / 3-entry page cache, on 1-2 shared repositories with collection every 5-10 ms, grace period 20-60 ms or 1 h, directory / memory / memory-over-directory stores; plus directed pairs on ONE upload session (a streamed PATCH against cancel / completing PUT / status / second PATCH / eviction / expiry timer, unordered by the harness); under the Go race detector; the oracle is the detector's report log (read by the driver); a case is one round, distinct = handler pairs that actually overlapped in time", "rounds", "overlapping_handler_pairs")
+	r.Finish("rounds of 8-13 stress clients (chunked uploads with expiry and eviction underneath, image and artifact pushes, referrers reads, deletes, listings) plus 4 readers with many client addresses (rate limiter), paged and filtered referrers reads against a 15 ms / 3-entry page cache, on 1-2 shared repositories with collection every 5-10 ms, grace period 20-60 ms or 1 h, directory / memory / memory-over-directory stores; plus directed pairs on ONE upload session (a streamed PATCH against cancel / completing PUT / status / second PATCH / eviction / expiry timer, unordered by the harness); half of the rounds with a logger that formats every record; first-touch trials (requests to repositories that exist on disk and are not cached, grace period 1 ns - 1 h, collection every 0.2-5 ms, six servers per trial); under the Go race detector; the oracle is the detector's report log (read by the driver); a case is one round, distinct = handler pairs that actually overlapped in time", "rounds", "overlapping_handler_pairs")
 }
